@@ -404,13 +404,17 @@ Record fdict := mkFD { f_items : dict; f_slot : hslot }.
 Inductive hout := HOk (h : Z) | HRaise | HNA.
 Inductive fval :=
 | FNone | FTok (n : nat) | FHashV (h : Z)
-| FNew (items : dict) (same_obj equal : bool) (h : hout).   (* object returned by updated/copy/pickle/... *)
+| FNew (items : dict) (same_obj equal : bool) (h : hout)    (* object returned by updated/copy/pickle/... *)
+(* a pickle loaded in ANOTHER process (different PYTHONHASHSEED), compared there with a FrozenDict rebuilt
+   from the same items: items seen there, hash outcomes agree, ==, `loaded in {rebuilt}` (None: hashing raised) *)
+| FX (items : dict) (hash_same equal : bool) (member : option bool).
 
 Inductive fd_op :=
 | FSetitem (k v : nat) | FDelitem (k : nat) | FUpdate (kvs : list kv) | FIor (kvs : list kv)
 | FSetdefault (k d : nat) | FPop (k : nat) (d : option nat) | FPopitem | FClear
 | FHash | FGet (k : nat) | FUpdated (kvs : list kv) | FCopy
-| FClone (plain : bool).      (* pickle round trip, deepcopy, FrozenDict(fd); plain: fd.copy() -> a plain dict *)
+| FClone (plain : bool)       (* pickle round trip, deepcopy, FrozenDict(fd); plain: fd.copy() -> a plain dict *)
+| FXProc.                     (* pickle.dumps here, pickle.loads in a fresh interpreter with another hash seed *)
 
 (* dict.update on a plain copy *)
 Definition d_update (d : dict) (kvs : list kv) : dict :=
@@ -447,6 +451,9 @@ Section FrozenDict.
         (fst (fd_hash f), Ok (FNew (f_items f) true true (hash_out (f_items f))))
     | FClone plain =>
         (f, Ok (FNew (f_items f) false true (if plain then HNA else hash_out (f_items f))))
+    | FXProc =>   (* the hash is a function of the content in the process where it is asked: nothing cached travels *)
+        (f, Ok (FX (f_items f) true true
+                   (if existsb (fun p => unhashable (snd p)) (f_items f) then None else Some true)))
     end.
 End FrozenDict.
 
